@@ -379,6 +379,8 @@ func runC20(c *core.Ctx, o Options) {
 				})
 			}
 		}
+		// what was handed to the writer goroutine is never written again
+		checkImageFresh(c, "message-lock")
 		c.Check(n >= 2, "message-lock", "", "message operations on the handler's send path found", token.NoPos, fmt.Sprint(n), fmt.Sprintf("only %d found (a Range call and ToBytes at least)", n))
 	}
 	// captured-variable: a local variable shared with a callback that another goroutine runs (event handler, AfterFunc, go,
